@@ -108,6 +108,10 @@ func (c *rollCtr) elemAccess(in ssa.Instruction) bool {
 }
 
 func runC17(p *Prog, r *Report) {
+	// R10: every completed response is counted
+	c17RecordComplete(p, r, "C17.R10")
+	// R9: ratios are consistent cuts
+	r.Floor("C17.R9", c17RatioOneSection(p, r, "C17.R9"), 1, "quotients of two counters in RTMetrics")
 	// R7: the rebalancer feeds its (unsynchronised) meters under its own mutex only (shared with C09.R1); R8: the first records of a new status code are not lost: get-or-create of its counter is re-checked under the write lock (shared with C09.R7)
 	if rbT := p.Named("roundrobin", "Rebalancer"); rbT != nil {
 		r.Floor("C17.R7", c09Races(p, r, "C17.R7", []*types.Named{rbT}), 1, "written shared locations reachable from the rebalancer")
@@ -521,6 +525,8 @@ func checkZeroGuardedDivisions(p *Prog, r *Report, fn *ssa.Function, rule string
 func mutantsC17() []Mutant {
 	f := "memmetrics/counter.go"
 	return []Mutant{
+		{Name: "clone-through-append", File: "memmetrics/counter.go", Old: "\t\tlastUpdated: c.lastUpdated,\n\t}\n\tcopy(other.values, c.values)\n", New: "\t}\n\t_ = other.Append(c)\n", Expect: "C17.R5"},
+		{Name: "ratio-from-two-sections", File: "memmetrics/roundtrip.go", Old: "\tm.countersLock.Lock()\n\tdefer m.countersLock.Unlock()\n\n\tif m.total.Count() == 0 {\n\t\treturn 0\n\t}\n\treturn float64(m.netErrors.Count()) / float64(m.total.Count())\n", New: "\ttotal := m.TotalCount()\n\tif total == 0 {\n\t\treturn 0\n\t}\n\treturn float64(m.NetworkErrorCount()) / float64(total)\n", Expect: "C17.R9"},
 		{Name: "append-skips-own-cleanup", File: "memmetrics/counter.go", Old: "\tc.Inc(int(o.Count()))\n", New: "\tc.incBucketValue(int(o.Count()))\n", Expect: "C17.R2"},
 		{Name: "cleanup-skips-newest-slot", File: f, Old: "\tfor i := 0; i < len(c.values); i++ {", New: "\tfor i := 1; i < len(c.values); i++ {", Expect: "C17.R4"},
 		{Name: "cleanup-stops-short", File: f, Old: "\tfor i := 0; i < len(c.values); i++ {", New: "\tfor i := 0; i < len(c.values)-1; i++ {", Expect: "C17.R4"},
@@ -703,4 +709,159 @@ func c17Shape(p *Prog, r *Report, c *rollCtr) {
 		}
 	}
 	r.Check(okC, "C17.R4", "memmetrics.RollingCounter: an increment goes to the bucket of now and moves lastUpdated to now", "-", "values[bucket(now)] += v; lastUpdated = now", whyC)
+}
+
+// c17RatioOneSection (R9): a ratio of two counters is read in one critical section. Every method of RTMetrics
+// that divides one counter-derived value by another takes one of the metrics' locks itself before reading
+// either and releases none in between; composing the ratio from two self-locking accessors lets a Record slip
+// between the two reads, and the "ratio" of values from different instants can exceed 1.
+func c17RatioOneSection(p *Prog, r *Report, rule string) int {
+	rt := p.Named("memmetrics", "RTMetrics")
+	if rt == nil {
+		return 0
+	}
+	n := 0
+	for _, fn := range p.Methods(rt) {
+		if fn.Blocks == nil {
+			continue
+		}
+		for _, b := range fn.Blocks {
+			for _, in := range b.Instrs {
+				q, ok := in.(*ssa.BinOp)
+				if !ok || q.Op != token.QUO || !isPlainBasic(types.Float64)(q.Type()) {
+					continue
+				}
+				var calls []ssa.Instruction
+				var walk func(v ssa.Value, d int)
+				walk = func(v ssa.Value, d int) {
+					if d > 6 || v == nil {
+						return
+					}
+					switch x := v.(type) {
+					case *ssa.Convert:
+						walk(x.X, d+1)
+					case *ssa.Call:
+						if f := x.Common().StaticCallee(); f != nil && p.InModule(f) {
+							calls = append(calls, x)
+						}
+					case *ssa.Phi:
+						for _, e := range x.Edges {
+							walk(e, d+1)
+						}
+					case *ssa.BinOp:
+						walk(x.X, d+1)
+						walk(x.Y, d+1)
+					}
+				}
+				walk(q.X, 0)
+				nx := len(calls)
+				walk(q.Y, 0)
+				if nx == 0 || len(calls) == nx {
+					continue // not a quotient of two counter reads
+				}
+				n++
+				r.Fn(FName(fn))
+				isLock := func(x ssa.Instruction) bool {
+					c, ok := x.(*ssa.Call)
+					if !ok {
+						return false
+					}
+					o := calleeObj(c.Common())
+					if o == nil || o.Pkg() == nil || o.Pkg().Path() != "sync" || (o.Name() != "Lock" && o.Name() != "RLock") || len(c.Common().Args) == 0 {
+						return false
+					}
+					a := stripConv(c.Common().Args[0])
+					if nt, _, _, ok := fieldOf(a); ok && nt != nil && nt.Obj() == rt.Obj() {
+						return true // a mutex held by value in the metrics object
+					}
+					return valueFromFieldOfType(a, rt)
+				}
+				isUnlock := func(x ssa.Instruction) bool {
+					c, ok := x.(*ssa.Call)
+					if !ok {
+						return false
+					}
+					o := calleeObj(c.Common())
+					return o != nil && o.Pkg() != nil && o.Pkg().Path() == "sync" && (o.Name() == "Unlock" || o.Name() == "RUnlock")
+				}
+				okSec := true
+				for _, c := range calls {
+					if ReachableAvoiding(fn, nil, c, isLock, nil) {
+						okSec = false
+					}
+				}
+				for _, c1 := range calls {
+					for _, c2 := range calls {
+						if c1 == c2 {
+							continue
+						}
+						for x := range Reach(fn, c1, func(y ssa.Instruction) bool { return y == c2 }, nil) {
+							if isUnlock(x) && Reach(fn, x, nil, nil)[c2] {
+								okSec = false
+							}
+						}
+					}
+				}
+				r.Paths++
+				r.Check(okSec, rule, FName(fn)+": numerator and denominator are read in one critical section", p.InstrPos(q), "one of the metrics' locks is taken before both reads and not released between them",
+					"the two counters of the ratio are not read under one lock held by this method: a Record between the two reads makes a ratio of values from different instants (it can exceed 1 and trip or hold the breaker wrongly)")
+			}
+		}
+	}
+	return n
+}
+
+// c17RecordComplete: every completed response is counted: RTMetrics.Record reaches the increment of the total
+// counter and the per-status-code bookkeeping on every path to a return — an early return in front of them
+// (e.g. when the latency histogram refuses the sample) makes responses invisible to the breaker's condition.
+func c17RecordComplete(p *Prog, r *Report, rule string) {
+	rt := p.Named("memmetrics", "RTMetrics")
+	if rt == nil {
+		return
+	}
+	rec := p.MethodOf(rt, "Record")
+	if rec == nil || rec.Blocks == nil {
+		r.Anchor(rule, "memmetrics.(*RTMetrics).Record", "not found")
+		return
+	}
+	r.Fn(FName(rec))
+	rc := p.Named("memmetrics", "RollingCounter")
+	inc := NewEvents(p, func(in ssa.Instruction) bool {
+		cc := CallCommonOf(in)
+		if cc == nil {
+			return false
+		}
+		f := cc.StaticCallee()
+		return f != nil && rc != nil && recvNamed(f) == rc && f.Name() == "Inc"
+	})
+	// the total: an Inc reached on every path (directly or through helpers that always perform one)
+	ret := ReturnReachableAvoiding(rec, nil, inc.Is, nil)
+	r.Paths++
+	r.Check(ret == nil, rule, "memmetrics.(*RTMetrics).Record: every response is counted", p.FuncPos(rec), "every return has passed an increment of a rolling counter (the total) — directly or through a helper that always makes one",
+		"Record can return without counting the response"+posOf(p, ret)+": such responses take no part in the ratios the breaker's condition is evaluated on")
+	// the per-code counter: the status-code helper (the method taking the code that touches the statusCodes map) is always called
+	var sc *ssa.Function
+	for _, c := range Calls(rec) {
+		if f := c.Common().StaticCallee(); f != nil && recvNamed(f) == rt && f != rec {
+			for _, b := range f.Blocks {
+				for _, in := range b.Instrs {
+					if _, ok := in.(*ssa.MapUpdate); ok {
+						sc = f
+					}
+					if lk, ok := in.(*ssa.Lookup); ok {
+						if _, isMap := lk.X.Type().Underlying().(*types.Map); isMap {
+							sc = f
+						}
+					}
+				}
+			}
+		}
+	}
+	if sc != nil {
+		isSC := func(in ssa.Instruction) bool { return IsCallTo(in, sc) }
+		ret2 := ReturnReachableAvoiding(rec, nil, isSC, nil)
+		r.Paths++
+		r.Check(ret2 == nil, rule, "memmetrics.(*RTMetrics).Record: every response's status code is counted", p.FuncPos(rec), "every return has passed "+FName(sc),
+			"Record can return without counting the status code"+posOf(p, ret2)+": ResponseCodeRatio misses such responses")
+	}
 }
